@@ -264,8 +264,10 @@ def toDictSlot (S : Schema) (E : Enums) (cs : KeyCase) (incl : Bool) (f : FieldD
   | .msg c slots ow unk cur =>
     if hid then toDictDefault S E f sel incl
     else if f.ty == .message && f.wraps.isNone && !f.repeated then
-      -- (after the D27 repair: a proto3-optional member that is not None is always written)
-      if ow || incl || f.optional || sel then
+      -- (after the D27 repair: a proto3-optional member that is not None is always written;
+      --  after the D46 repair: so is a sub-message that differs from its default although nothing
+      --  marked it — content set through nested attribute access, `m.a.b.x = 1` — as in `dump`)
+      if ow || incl || f.optional || sel || !eqDefault S f.defKind (.msg c slots ow unk cur) then
         some (mkObj (toDictKVs S E cs incl (fieldsOf S c) cur 0 slots))
       else Option.none
     else some (.raw (.msg c slots ow unk cur))
